@@ -55,8 +55,10 @@ pub fn sched_report(ctx: &Ctx) -> Value {
 }
 
 pub fn run(ctx: Ctx) -> i32 {
-    if ctx.replay.is_some() {
-        return ctx.finish(json!({"programs":1,"disagreements_checked":0,"samples":["replay: run the check; every disagreement names its case and input"]}), &[], false);
+    if let Some(case) = load_replay(&ctx) {
+        // replay = the comparison is run again (the generated modules are rebuilt from the working
+        // tree by ./check) and only the disagreements of the stored case and input are kept
+        ctx.replay_only(&["case", "input"], &case);
     }
     let v = run_ctrt(&[]);
     let dis = v["disagreements"].as_array().cloned().unwrap_or_default();
